@@ -177,14 +177,29 @@ func toIs(v interface{}) []int64 {
 }
 
 func (in In) Is(k string) []int64 { return toIs(in.get(k)) }
+// I32s rebuilds a list of int32, like every rebuilt slice with spare capacity holding garbage beyond its length
+// (cap instead of len, or reading one element too far, must show).
 func (in In) I32s(k string) []int32 {
 	l := in.Is(k)
-	r := make([]int32, len(l))
-	for i, x := range l {
-		r[i] = int32(x)
+	spare, garbage := 2, int32(0x5a5a5a5a)
+	if len(l)%2 == 0 {
+		spare, garbage = 5, -7
 	}
-	return r
+	full := make([]int32, len(l)+spare)
+	for i := range full {
+		full[i] = garbage
+	}
+	for i, x := range l {
+		full[i] = int32(x)
+	}
+	return full[:len(l)]
 }
+
+// emptyOpts is an empty variadic tail that still has capacity (a caller may pass opts[:0]...): len, not cap, says
+// whether an option was given.
+func emptyOpts() []int32 { return make([]int32, 0, 3) }
+
+func emptyBoolOpts() []bool { return make([]bool, 0, 3) }
 
 // toBytes rebuilds a byte slice, also with spare capacity holding garbage beyond its length.
 func toBytes(v interface{}) []byte {
@@ -220,7 +235,13 @@ func (in In) Str(k string) string { return string(in.Bs(k)) }
 // Strs reads a list of byte strings.
 func (in In) Strs(k string) []string {
 	l := toList(in.get(k))
-	r := make([]string, len(l))
+	r := make([]string, len(l), len(l)+2+len(l)%3) // spare capacity (holding empty strings) behind the list
+	defer func() {
+		full := r[:cap(r)]
+		for i := len(r); i < len(full); i++ {
+			full[i] = "\xff\xfe garbage behind the list"
+		}
+	}()
 	total := 0
 	for i, x := range l {
 		r[i] = string(toBytes(x))
